@@ -86,19 +86,52 @@ theorem C09_ref_is_reference (name : Name) (parentNs : Option String) (fuel : Na
     rawOfJson (fuel + 1) (.str (refString parentNs name)) = .ok (.ref (refString parentNs name)) := by
   simp [rawOfJson, h]
 
-/-- … **corner**: a named type referenced from its own namespace whose short name is a type
-    keyword is written as that keyword and read back as the type, not as a reference. -/
+/-- … **corner** (defect D20, repaired): with the spelling the crate used before the repair
+    (`refStringOld`), a named type referenced from its own namespace whose short name is a type
+    keyword was written as that keyword and read back as the type, not as a reference. -/
 theorem C09_ref_keyword_corner (name : Name) (fuel : Nat) (t : RawType)
     (h : RawType.ofString name.short = some t) :
-    rawOfJson (fuel + 1) (.str (refString name.ns name)) = .ok (.type t) := by
-  simp [rawOfJson, refString, h]
+    rawOfJson (fuel + 1) (.str (refStringOld name.ns name)) = .ok (.type t) := by
+  simp [rawOfJson, refStringOld, h]
 
-/-- Instance to replay: the (well-formed) name `int` without namespace, referenced at top level. -/
+/-- Instance that was replayed on the crate: the (well-formed) name `int` without namespace. -/
 theorem C09_ref_keyword_example :
     (⟨"int", "int", none⟩ : Name).WF ∧
-      rawOfJson 1 (.str (refString none ⟨"int", "int", none⟩)) = .ok (.type .int) := by
+      rawOfJson 1 (.str (refStringOld none ⟨"int", "int", none⟩)) = .ok (.type .int) := by
   refine ⟨⟨by unfold NoDot; decide, fun _ => rfl, fun x hx => by cases hx⟩, ?_⟩
   exact C09_ref_keyword_corner ⟨"int", "int", none⟩ 0 .int (by decide)
+
+/-- none of the thirteen type names contains a dot -/
+theorem ofString_some_nodot (s : String) (t : RawType) (h : RawType.ofString s = some t) :
+    '.' ∉ s.toList := by
+  unfold RawType.ofString at h
+  split at h <;> first | (simp at h; done) | decide
+
+/-- After the repair the string written for a reference is **always** read as a reference:
+    either it is a bare short name that is not a type name, or it contains a dot. -/
+theorem C09_ref_always_reference (name : Name) (h : name.WF) (parentNs : Option String) (fuel : Nat) :
+    rawOfJson (fuel + 1) (.str (refString parentNs name)) = .ok (.ref (refString parentNs name)) := by
+  apply C09_ref_is_reference
+  unfold refString
+  split
+  · rename_i hc
+    have := hc.2
+    cases hh : RawType.ofString name.short with
+    | none => rfl
+    | some t => simp [hh] at this
+  · cases hr : RawType.ofString (if name.ns.isNone = true then "." ++ name.fq else name.fq) with
+    | none => rfl
+    | some t =>
+      exfalso
+      have hd := ofString_some_nodot _ t hr
+      split at hd
+      · apply hd; simp [String.toList_append]
+      · rename_i hns
+        cases hn : name.ns with
+        | none => simp [hn] at hns
+        | some x =>
+          obtain ⟨_, hfq⟩ := h.ns_some x hn
+          apply hd; rw [hfq]; simp [String.toList_append]
 
 /-! ### 3. logical types -/
 
